@@ -11,6 +11,7 @@ import (
 	"net/http"
 	"net/url"
 	"os"
+	"strconv"
 	"strings"
 	"sync"
 	"sync/atomic"
@@ -110,14 +111,20 @@ func checkValidated(in, v mcp.VerifRetryConfig) *Failure {
 }
 
 // outcome kinds of one attempt
-var c17Outcomes = []string{"ok", "rpc-error", "refused", "reset", "timeout", "eof", "wrapped-eof", "408", "409", "429", "500", "502", "503", "599", "400", "401", "403", "404", "405", "422", "other-net"}
+var c17Outcomes = []string{"ok", "rpc-error", "refused", "reset", "timeout", "eof", "wrapped-eof", "408", "409", "429", "500", "502", "503", "599", "400", "401", "403", "404", "405", "422", "other-net",
+	// every assigned 5xx code on its own (a table that spells the codes out can lose one), and more of the 4xx range
+	"501", "504", "505", "506", "507", "508", "509", "510", "511", "402", "406", "407", "410", "411", "412", "413", "414", "415", "416", "417", "418", "421", "423", "424", "425", "426", "428", "431", "451", "499"}
 
 func transientOutcome(o string) (transient, named bool) {
 	switch o {
-	case "refused", "reset", "timeout", "eof", "wrapped-eof", "408", "409", "429", "500", "502", "503", "599":
+	case "refused", "reset", "timeout", "eof", "wrapped-eof":
 		return true, true
-	case "ok", "rpc-error", "400", "401", "403", "404", "405", "422":
+	case "ok", "rpc-error":
 		return false, true
+	}
+	if st, err := strconv.Atoi(o); err == nil {
+		// the statement: HTTP 408, 409, 429 and 5xx are transient, any other 4xx is not
+		return st == 408 || st == 409 || st == 429 || (st >= 500 && st <= 599), st >= 400 && st <= 599
 	}
 	return false, false // unnamed kinds: unasserted
 }
